@@ -1,5 +1,5 @@
 #!/bin/bash
-# usage: mut.sh <ID> <tier> <sed-expr> <file-relative-to-repo> [more "expr" "file" pairs...]
+# usage: mut.sh <ID> <tier> <sed-expr | perl:<perl -0pi expr>> <file-relative-to-repo> [more "expr" "file" pairs...]
 # Runs a check against a scratch copy of /repo carrying one deliberate mutation (sensitivity run).
 set -e
 ID=$1; TIER=$2; shift 2
@@ -7,7 +7,10 @@ D=$(mktemp -d /tmp/vfmut.XXXXXX)
 rsync -a --exclude .git /repo/ $D/
 while [ $# -ge 2 ]; do
   before=$(md5sum $D/$2)
-  sed -i -E "$1" $D/$2
+  case "$1" in
+    perl:*) perl -0pi -e "${1#perl:}" $D/$2 ;;
+    *) sed -i -E "$1" $D/$2 ;;
+  esac
   after=$(md5sum $D/$2)
   if [ "$before" == "$after" ]; then echo "MUTATION DID NOT APPLY: $1 $2"; rm -rf $D; exit 3; fi
   shift 2
